@@ -435,6 +435,19 @@ def r2(ctx: Ctx) -> None:
         cnw[0][1][2][0][3] == ((("b", 1, 0), ("a", s_, "edges"), ("k", "bool", True)),) and cnw[0][1][2][0][2] == (("a", ("b", 1, 0), "wire_length"),)
     if not ok:
         ctx.report(fnw.where, "netlist-wirelength", "Netlist.wire_length is not the sum of the wire lengths of all nets", lineno=fnw.node.lineno)
+    # ... and both are evaluated afresh on every read: a plain property (the centres move between reads)
+    for g_ in (fw, fnw):
+        names_ = []
+        for d in g_.node.decorator_list:
+            core_ = d.func if isinstance(d, ast.Call) else d
+            names_.append(core_.id if isinstance(core_, ast.Name) else (core_.attr if isinstance(core_, ast.Attribute) else ast.unparse(core_)))
+        ctx.site(g_.where, "recomputed on every read (plain property, no memo)", decorators=names_)
+        memo = [n_ for n_ in names_ if "cache" in n_ or "memo" in n_]
+        stores_ = [n for n in walk_own(g_.node) if isinstance(n, (ast.Attribute, ast.Subscript)) and isinstance(n.ctx, ast.Store)]
+        if memo or stores_:
+            ctx.report(g_.where, f"wirelength-memoised {g_.qualname}", f"{g_.qualname} keeps the value it computed ({', '.join(memo) or 'stored in a field'}): modules "
+                       "move between reads (and a deep copy takes the stored value along), so a later read reports the wire length of an earlier layout",
+                       lineno=g_.node.lineno)
     # Point.__and__ is the dot product, norm the euclidean norm
     fd = ctx.func(GEOM, "Point.__and__")
     cd = canon_function(fd, m)
